@@ -1,4 +1,4 @@
-import Proofs.F64Ops
+import Proofs.F64Approx
 import Mathlib.Tactic.FieldSimp
 /-! Real semantics of the softfloat division (sticky-bit long division + one rounding): the computed quotient is finite and
 within relative `ud = u*(1+1/128)` plus absolute `eta` of the real quotient. (The sticky bit makes the result the correctly
@@ -182,6 +182,25 @@ theorem div_val (a b : Nat) (ha : Finite a) (hb : Finite b) (hb0 : toReal b ≠ 
     · rw [if_neg hs] at hrv ⊢
       rw [one_mul] at hrv ⊢
       exact hcomb hrv
+
+/-- division with magnitude bookkeeping: `|a| ≤ A`, `|b| ≥ Bl > 0` -/
+theorem div_bnd (a b : Nat) (A Bl : ℝ) (ha : Bnd a A) (hb : Finite b) (hBl : 0 < Bl) (hbl : Bl ≤ |toReal b|) (hfit : A / Bl ≤ (2:ℝ)^(1022:ℤ)) :
+    Bnd (div a b) (A / Bl * (1 + ud) + eta) ∧ |toReal (div a b) - toReal a / toReal b| ≤ ud * (A / Bl) + eta := by
+  obtain ⟨fa, hA⟩ := ha
+  have hb0 : toReal b ≠ 0 := by intro h; rw [h, abs_zero] at hbl; linarith
+  have hbpos : 0 < |toReal b| := lt_of_lt_of_le hBl hbl
+  have hq : |toReal a / toReal b| ≤ A / Bl := by
+    rw [abs_div]
+    have hA0 : 0 ≤ A := le_trans (abs_nonneg _) hA
+    calc |toReal a| / |toReal b| ≤ A / |toReal b| := div_le_div_of_nonneg_right hA hbpos.le
+      _ ≤ A / Bl := div_le_div_of_nonneg_left hA0 hBl hbl
+  obtain ⟨fd, hd⟩ := div_val a b fa hb hb0 (le_trans hq hfit)
+  have hud := ud_pos
+  have he : |toReal (div a b) - toReal a / toReal b| ≤ ud * (A / Bl) + eta :=
+    le_trans hd (by have := mul_le_mul_of_nonneg_left hq hud.le; linarith)
+  refine ⟨⟨fd, ?_⟩, he⟩
+  have h1 := abs_sub_abs_le_abs_sub (toReal (div a b)) (toReal a / toReal b)
+  nlinarith
 
 end F64
 
